@@ -308,6 +308,16 @@ func (d *deduplicatingPublisherDecorator) Publish(
 	notRecent := make([]*message.Message, 0, len(messages))
 	isDuplicate := false
 
+	// a batch the hasher rejects is refused as a whole: make sure of that
+	// before any of its keys is recorded (and any duplicate in it acked),
+	// otherwise later messages with those keys are dropped although
+	// nothing of this batch ever reached the publisher
+	for _, m := range messages {
+		if _, err = d.deduplicator.KeyFactory(m); err != nil {
+			return err
+		}
+	}
+
 	for _, m := range messages {
 		isDuplicate, err = d.deduplicator.IsDuplicate(m)
 		if err != nil {
